@@ -18,6 +18,7 @@ pub mod c14;
 pub mod c15;
 pub mod c16;
 pub mod c17;
+pub mod c18;
 pub mod c20;
 
 macro_rules! dispatch {
@@ -40,6 +41,7 @@ macro_rules! dispatch {
             "C15" => $f(c15::C15, $($arg),*),
             "C16" => $f(c16::C16, $($arg),*),
             "C17" => $f(c17::C17, $($arg),*),
+            "C18" => $f(c18::C18, $($arg),*),
             "C20" => $f(c20::C20, $($arg),*),
             other => {
                 eprintln!("unknown property {}", other);
